@@ -12,6 +12,7 @@ func init() {
 	vpRegister("c07_graph", vpH_c07_graph)
 	vpRegister("c07_merge_chain", vpH_c07_merge_chain)
 	vpRegister("c07_typed_merge", vpH_c07_typed_merge)
+	vpRegister("c07_reexpand", vpH_c07_reexpand)
 }
 
 func vpScalar(v string) *yaml.Node {
@@ -392,6 +393,53 @@ func vpH_c07_typed_merge() {
 			kn, k := pick(kr)
 			kr = append(kr, k)
 			root.Content = append(root.Content, kn, vpScalar("y"))
+		}
+	}
+	vpCheckDecode(root)
+}
+
+// An anchored subtree that itself contains aliases, expanded several times
+// (as a value, inside a sequence, through a merge): every expansion is a full
+// independent copy with ordered mappings all the way down, and an acyclic
+// document is never mistaken for a cyclic one.
+func vpH_c07_reexpand() {
+	// m: &m {b: x, a: y}   (two keys, not in sorted order)
+	m := vpMapping()
+	m.Anchor = "m"
+	m.Content = append(m.Content, vpScalar("b"), vpScalar("x"), vpScalar("a"), vpScalar("y"))
+	// inner: an anchored node that refers to m
+	var inner *yaml.Node
+	switch vpInt(0, 3) {
+	case 0: // mapping with an alias value
+		inner = vpMapping()
+		inner.Content = append(inner.Content, vpScalar("k"), vpAlias(m))
+	case 1: // sequence of aliases
+		inner = vpSeq(vpAlias(m), vpAlias(m))
+	case 2: // sequence holding a sequence holding an alias
+		inner = vpSeq(vpScalar("s"), vpSeq(vpAlias(m)))
+	default: // mapping that merges m and adds a key
+		inner = vpMapping()
+		inner.Content = append(inner.Content, vpMergeKey(), vpAlias(m), vpScalar("c"), vpScalar("z"))
+	}
+	inner.Anchor = "i"
+	root := vpMapping()
+	root.Content = append(root.Content, vpScalar("m"), m, vpScalar("i"), inner)
+	// expansions of inner, in any mix
+	for n := vpInt(1, 2); n > 0; n-- {
+		key := vpScalar("r" + string(rune('0'+n)))
+		switch vpInt(0, 2) {
+		case 0:
+			root.Content = append(root.Content, key, vpAlias(inner))
+		case 1:
+			root.Content = append(root.Content, key, vpSeq(vpAlias(inner), vpScalar("t")))
+		default:
+			if inner.Kind == yaml.MappingNode {
+				holder := vpMapping()
+				holder.Content = append(holder.Content, vpMergeKey(), vpAlias(inner))
+				root.Content = append(root.Content, key, holder)
+			} else {
+				root.Content = append(root.Content, key, vpAlias(inner))
+			}
 		}
 	}
 	vpCheckDecode(root)
